@@ -132,6 +132,14 @@ CHECKS = {
           "identities mod L for the quantified inputs and the expander's equality with RFC 9380 for contexts up to 255 bytes. Point arithmetic, the sc25519 limb code and the Elligator/Ristretto maps are translation-validated on every "
           "structured encoding named in the property. Two genuine deviations are recorded as known findings (not repairable without editing the existing tests): the weak main-subgroup test and the oversize-context expander."),
     note=NOTE_COMMON + "known findings C07-main-subgroup and C07-oversize-dst are reported as KNOWN-FINDING on every run (known_findings.json)."),
+ "C13": dict(
+    category="proof", design_ref="DESIGN.md §3.13",
+    technique="Lean 4 theorems over a flat-memory model of the pointer-distance test, memmove and block0 staging (result region = value-level result for every length and placement) + differential correspondence with buffers laid out at every offset -80..+80 on every backend",
+    text=("crypto_secretbox_detached / open_detached / easy / open_easy, crypto_sign and crypto_sign_open are modelled at pointer level over a flat memory (uintptr distance test, memmove, in-place stream XOR) and proved, for every "
+          "length and every placement of the regions, to produce the result of the value-level (disjoint-buffer) model. The tie lays input and output out in one arena at every relative offset in [-80, +80] for message lengths "
+          "0..1200 (secretbox and box in both cipher variants, sign, sign_open) and runs every stream XOR and AEAD encrypt/decrypt form with identical pointers, on the AVX2 / SSSE3 / reference backends; the expected answer is the "
+          "disjoint-buffer answer."),
+    note=NOTE_COMMON + "vector backends operating in place are covered by the correspondence only (no model of the SIMD kernels)."),
 }
 
 NOT_YET = {}
